@@ -68,6 +68,9 @@ def strategy(tier: str) -> Any:
         'other_session': st.sampled_from(['none', 'dest-selected',
                                           'src-selected']),
         'gate': st.booleans(),
+        # the destination of MOVE / COPY: usually another mailbox, now and
+        # then the selected mailbox itself
+        'dest': st.sampled_from(['Other', 'Other', 'Other', 'INBOX']),
     })
 
 
@@ -122,7 +125,8 @@ class World:
         kind = case['kind']
         new: list[bytes] = []
         if kind in ('move', 'copy'):
-            data = pre + kind.upper().encode() + b' ' + ss + b' Other'
+            data = pre + kind.upper().encode() + b' ' + ss + b' ' \
+                + case.get('dest', 'Other').encode()
         elif kind == 'expunge':
             data = b'UID EXPUNGE ' + usets[case['set']] if case['uid'] \
                 else b'EXPUNGE'
